@@ -257,6 +257,13 @@ type Op struct {
 	W      *WriterFault `json:"w,omitempty"`
 	Recv   string       `json:"recv,omitempty"` // register: str arr int float bool
 	Fn     int          `json:"fn,omitempty"`   // register: id in the function catalogue
+	Call   *CallSpec    `json:"call,omitempty"` // C20: structure of the custom-function call in Src / in the page
+}
+
+// evalPlain calls EvaluateString directly (no simulation task); used by models
+// to render reference values.
+func evalPlain(src string, data map[string]any) (string, error) {
+	return textwire.EvaluateString(src, data)
 }
 
 func (o Op) String() string {
